@@ -24,6 +24,10 @@ type LowLevel struct {
 	calls    int
 	// Offers records, per call, the entries enumerated from `higher`.
 	Offers []string
+	// OfferFailed[i]: call i was made to fail.
+	OfferFailed []bool
+	// Roots records the content after every successful update.
+	Roots []*Node
 	// handle accounting
 	OpenSnaps      int64
 	OpenIters      int64
@@ -56,7 +60,9 @@ type llSnap struct {
 
 func (s *llSnap) check() {
 	if atomic.LoadInt32(&s.closed) != 0 {
-		atomic.AddInt64(&s.l.UseAfterClose, 1)
+		s.l.mu.Lock()
+		s.l.UseAfterClose++
+		s.l.mu.Unlock()
 	}
 }
 
@@ -263,12 +269,14 @@ func (l *LowLevel) Update(higher moss.Snapshot) (moss.Snapshot, error) {
 	}
 	l.mu.Lock()
 	l.Offers = append(l.Offers, offer.String())
+	l.OfferFailed = append(l.OfferFailed, fail)
 	if fail {
 		l.Fails++
 		l.mu.Unlock()
 		return nil, ErrInjected
 	}
 	l.root = next
+	l.Roots = append(l.Roots, next)
 	l.Updates++
 	l.mu.Unlock()
 	return l.Snapshot(), nil
